@@ -615,7 +615,7 @@ def native_build(udir, work, templates, driver, out, extra='', link=''):
     extra = extra + ' -I/usr/include/hdf5/serial -I/usr/lib/x86_64-linux-gnu/openmpi/include -I/usr/lib/x86_64-linux-gnu/openmpi/include/openmpi'
     cmd = 'g++ -std=c++11 -O1 -ffp-contract=off -fopenmp -fno-access-control -w %s -I%s -I%s -I%s -I%s %s %s -o %s' % (
         extra, quote(os.path.join(REPO, 'src')), quote(build_inc), quote(os.path.join(VERIF, 'prelude')), quote(udir),
-        quote(driver), ' '.join(quote(o) for o in objs), quote(out)) + ' ' + link
+        quote(driver), ' '.join(quote(o) for o in objs), quote(out)) + ' ' + link.replace('{repo}', REPO)
     rc, so, se, dt = sh(cmd, timeout=600)
     if rc != 0:
         raise Infra('native driver build failed: ' + se[-3000:])
